@@ -121,19 +121,19 @@ func goldenConfigs() []fmtCase {
 		case "UTF":
 			sh = "utf8-3"
 		}
-		out = append(out, fmtCase{P: Params{t, "HUFFMAN", 4096, 2, 32, -1, false}, Shape: sh, Len: 9000})
+		out = append(out, fmtCase{P: Params{t, "HUFFMAN", 4096, 2, 32, -1, false, false}, Shape: sh, Len: 9000})
 	}
 	for _, e := range allEntropies {
-		out = append(out, fmtCase{P: Params{"NONE", e, 4096, 2, 64, 9000, false}, Shape: "text", Len: 9000})
+		out = append(out, fmtCase{P: Params{"NONE", e, 4096, 2, 64, 9000, false, false}, Shape: "text", Len: 9000})
 	}
 	for _, ck := range []uint{0, 32, 64} {
-		out = append(out, fmtCase{P: Params{"LZ", "ANS0", 1024, 3, ck, -1, ck == 32}, Shape: "xml", Len: 5000})
+		out = append(out, fmtCase{P: Params{"LZ", "ANS0", 1024, 3, ck, -1, ck == 32, false}, Shape: "xml", Len: 5000})
 	}
 	for _, ps := range levelPresets {
 		t, e := splitPreset(ps)
-		out = append(out, fmtCase{P: Params{t, e, 65536, 2, 32, -1, false}, Shape: "text", Len: 100000})
+		out = append(out, fmtCase{P: Params{t, e, 65536, 2, 32, -1, false, false}, Shape: "text", Len: 100000})
 	}
-	out = append(out, fmtCase{P: Params{"NONE", "NONE", 1024, 1, 0, -1, false}, Shape: "text", Len: 0})
+	out = append(out, fmtCase{P: Params{"NONE", "NONE", 1024, 1, 0, -1, false, false}, Shape: "text", Len: 0})
 	return out
 }
 
@@ -228,7 +228,7 @@ func init() {
 				for _, e := range allEntropies {
 					for _, sh := range shapesA {
 						for _, n := range []int{0, 1, 16, 17, 1023, 1025, 2560, 5123} {
-							emit(fmtCase{P: Params{t, e, B, 2, 32, -1, false}, Shape: sh, Len: n, Jobs: 1 + uint(n%2)*2})
+							emit(fmtCase{P: Params{t, e, B, 2, 32, -1, false, false}, Shape: sh, Len: n, Jobs: 1 + uint(n%2)*2})
 						}
 					}
 				}
@@ -236,14 +236,14 @@ func init() {
 			for _, t := range allTransforms {
 				for _, e := range pick(c, []string{"NONE", "ANS0"}, allEntropies) {
 					for _, sh := range pick(c, []string{"text", "utf8-wide", "dna", "lzbound"}, coreShapes) {
-						emit(fmtCase{P: Params{t, e, 65536, 3, 64, 65553, false}, Shape: sh, Len: 65553, Jobs: 3})
+						emit(fmtCase{P: Params{t, e, 65536, 3, 64, 65553, false, false}, Shape: sh, Len: 65553, Jobs: 3})
 					}
 				}
 			}
 			for _, t1 := range allTransforms[1:] {
 				for _, t2 := range allTransforms[1:] {
 					for _, sh := range pick(c, []string{"text", "lzbound"}, []string{"text", "dna", "runs", "lzbound", "elf"}) {
-						emit(fmtCase{P: Params{t1 + "+" + t2, "HUFFMAN", 4096, 2, 32, -1, false}, Shape: sh, Len: 9000, Jobs: 3})
+						emit(fmtCase{P: Params{t1 + "+" + t2, "HUFFMAN", 4096, 2, 32, -1, false, false}, Shape: sh, Len: 9000, Jobs: 3})
 					}
 				}
 			}
@@ -262,27 +262,27 @@ func init() {
 						if !c.Thorough() && n > 600000 && (e == "TPAQ" || e == "TPAQX" || e == "CM") {
 							continue
 						}
-						emit(fmtCase{P: Params{t, e, 32 << 20, 1, 32, int64(n), false}, Shape: "text", Len: n, Jobs: 1})
+						emit(fmtCase{P: Params{t, e, 32 << 20, 1, 32, int64(n), false, false}, Shape: "text", Len: n, Jobs: 1})
 					}
 				}
 				for _, t := range []string{"BWT", "BWTS", "LZ", "LZX", "LZP", "ROLZ", "ROLZX", "RLT", "TEXT+UTF+BWT+RANK+ZRLT", "EXE+RLT+TEXT+UTF+DNA"} {
 					if !c.Thorough() && n != 600000 {
 						continue
 					}
-					emit(fmtCase{P: Params{t, "ANS0", 32 << 20, 2, 32, -1, false}, Shape: "mixed", Len: n, Jobs: 2})
+					emit(fmtCase{P: Params{t, "ANS0", 32 << 20, 2, 32, -1, false, false}, Shape: "mixed", Len: n, Jobs: 2})
 				}
 			}
 			for _, ps := range levelPresets {
 				t, e := splitPreset(ps)
 				for _, sh := range shapeNames {
 					for _, n := range pick(c, []int{70000}, []int{3000, 70000, 300000}) {
-						emit(fmtCase{P: Params{t, e, 65536, 2, 32, -1, false}, Shape: sh, Len: n, Jobs: 1})
+						emit(fmtCase{P: Params{t, e, 65536, 2, 32, -1, false, false}, Shape: sh, Len: n, Jobs: 1})
 					}
 				}
 			}
 			for _, ch := range eightChains {
 				for _, sh := range coreShapes {
-					emit(fmtCase{P: Params{ch, "ANS0", 65536, 2, 32, -1, false}, Shape: sh, Len: 70000, Jobs: 3})
+					emit(fmtCase{P: Params{ch, "ANS0", 65536, 2, 32, -1, false, false}, Shape: sh, Len: 70000, Jobs: 3})
 				}
 			}
 			// framing written by the reference (exact or absent hint: the classes on which it round-trips)
@@ -300,7 +300,7 @@ func init() {
 							for _, h := range []int64{-1, int64(n)} {
 								for _, ck := range []uint{0, 32, 64} {
 									for _, hl := range []bool{false, true} {
-										emit(fmtCase{P: Params{cd[0], cd[1], B, j, ck, h, hl}, Shape: "text", Len: n, Jobs: 3})
+										emit(fmtCase{P: Params{cd[0], cd[1], B, j, ck, h, hl, false}, Shape: "text", Len: n, Jobs: 3})
 									}
 								}
 							}
